@@ -172,6 +172,8 @@ Decode(t) ==
 SameFields(a, b) == /\ a.pk = b.pk /\ a.ts = b.ts /\ a.kind = b.kind /\ a.tags = b.tags /\ a.content = b.content
 
 (* ------------------------------- enumerated events ---------------------------- *)
+TA == {0, 10, 11, 34, 47, 92, 97, 127, 233, 65536}      \* one code point of every escape class (also used by Tamper)
+
 PK1 == <<4,15,3,5,5,11,13,12,11,7,12,12,0,10,15,7,2,8,14,15,3,12,12,14,11,9,6,1,5,13,9,0,6,8,4,11,11,5,11,2,12,10,5,15,8,5,9,10,11,0,15,0,11,7,0,4,0,7,5,8,7,1,10,10>>
 PK2 == <<4,6,6,13,7,15,12,10,14,5,6,3,14,5,12,11,0,9,10,0,13,1,8,7,0,11,11,5,8,0,3,4,4,8,0,4,6,1,7,8,7,9,10,1,4,9,4,9,12,15,2,2,2,8,5,15,1,11,10,14,3,15,2,7>>
 PkIdx(p) == IF p = PK2 THEN 2 ELSE 1
@@ -229,11 +231,13 @@ FNested == {[Base("nested") EXCEPT !.tags = T, !.content = c] : T \in NestedTags
 FNum == {[Base("num") EXCEPT !.pk = p, !.ts = t, !.kind = k, !.tags = << << <<116, 97>>, <<120>> >> >>, !.content = <<104, 105>>]
             : p \in {PK1, PK2}, t \in Times, k \in Kinds}
 
-Events == FContent \cup FTagStr \cup FShape \cup FNested \cup FNum
+\* long strings of one character of every escape class (the escaper's buffers grow; 70 and 7 code points)
+Rep(n, c) == [i \in 1..n |-> c]
+FLong == {[Base("long") EXCEPT !.content = Rep(n, c), !.tags = << <<Rep(7, c), Rep(n, c)>> >>] : n \in {7, 70}, c \in TA}
+
+Events == FContent \cup FTagStr \cup FShape \cup FNested \cup FNum \cup FLong
 
 (* ----------------------------------- tampering -------------------------------- *)
-TA == {0, 10, 11, 34, 47, 92, 97, 127, 233, 65536}      \* one code point of every escape class
-
 RemoveAt(s, i)     == SubSeq(s, 1, i - 1) \o SubSeq(s, i + 1, Len(s))
 ReplaceAt(s, i, r) == SubSeq(s, 1, i - 1) \o r \o SubSeq(s, i + 1, Len(s))     \* splice the sequence r in place of s[i]
 
@@ -303,11 +307,12 @@ Init == ev \in Events /\ orig = ev /\ tam = "none" /\ txt = Canon(ev) /\ otxt = 
 StrSize(e) == Len(e.content) + Len(Cat(Cat(e.tags)))      \* code points in all strings of e
 \* which enumerated events are tampered with: all of them (thorough), or a subset that keeps every
 \* tamper operator and every family represented (quick)
-Tampered(e) == \/ TamperWide
+Tampered(e) == \/ TamperWide /\ e.f # "long"
                \/ e.f \in {"content", "tagstr"} /\ StrSize(e) <= 1
                \/ e.f = "shape"
                \/ e.f = "nested" /\ (Len(e.content) = 0 \/ Len(e.tags) = 0)
                \/ e.f = "num" /\ (e.kind \in {1, 65535} \/ e.ts \in {<<0>>, U64Max})
+               \/ e.f = "long" /\ Len(e.content) <= 7
 
 Tamper == /\ tam = "none"
           /\ Tampered(ev)
